@@ -569,6 +569,7 @@ class UserTrackingManager:
                 # Ensure retry does not get scheduled again if we no longer
                 # desire to track the user
                 await cancel_task(tracked_user.retry_task)
+                tracked_user.retry_task = None
 
                 # Prevent RemoveUser from being called multiple times if there
                 # are multiple entries on the queue
@@ -587,7 +588,8 @@ class UserTrackingManager:
                     request.handled.set()
                     return
 
-            elif previous_flags == TrackingFlag(0) or is_retry:
+            elif previous_flags == TrackingFlag(0) or (
+                    is_retry and tracked_user.retry_task is not None and tracked_user.retry_task.done()):
                 retry_timeout, retry_reason, response = await self._request_tracking(tracked_user)
 
                 if retry_timeout:
